@@ -381,7 +381,12 @@ func (e *IntegerExpression) MarshalJSON() ([]byte, error) {
 	})
 }
 
-func (*IntegerExpression) precedence() expressionPrecedence {
+func (e *IntegerExpression) precedence() expressionPrecedence {
+	// A negative literal is printed with a minus sign,
+	// i.e. like a unary prefix expression
+	if e.Value != nil && e.Value.Sign() < 0 {
+		return expressionPrecedenceUnaryPrefix
+	}
 	return expressionPrecedenceLiteral
 }
 
@@ -476,7 +481,12 @@ func (e *FixedPointExpression) MarshalJSON() ([]byte, error) {
 	})
 }
 
-func (*FixedPointExpression) precedence() expressionPrecedence {
+func (e *FixedPointExpression) precedence() expressionPrecedence {
+	// A negative literal is printed with a minus sign,
+	// i.e. like a unary prefix expression
+	if e.Negative {
+		return expressionPrecedenceUnaryPrefix
+	}
 	return expressionPrecedenceLiteral
 }
 
